@@ -50,6 +50,46 @@ theorem quicLoop_eq (o : Oracle) (r : Nat) :
   case case4 r _ _ _ _ _ ih => simpa [quicForgot] using ih
   case case6 r _ hge _ _ => intro h; omega
 
+/-! ### DoH -/
+
+/-- is the failed DoH attempt retried (budget permitting)? -/
+def dohRetryable (a : Attempt) : Bool :=
+  !a.ctxDone && !(!a.get.isErr && a.res.isSome) && !a.respErr && (a.get == .pooled || a.connErr)
+
+def dohResult (a : Attempt) : Option Nat :=
+  if !a.ctxDone && !a.get.isErr then a.res else none
+
+theorem dohLoop_step (o : Oracle) (r i : Nat) :
+    dohLoop o r i = if r < 3 ∧ dohRetryable (o i) = true then dohLoop o (r + 1) (i + 1) else ⟨dohResult (o i), i + 1⟩ := by
+  rw [dohLoop]
+  generalize o i = a
+  cases a with
+  | mk g x c f fd ce re =>
+    by_cases h : r < 3 <;> cases g <;> cases x <;> cases c <;> cases ce <;> cases re <;>
+      simp [dohRetryable, dohResult, Get.isErr, h]
+
+theorem loop_dohView_step (o : Oracle) (r : Nat) :
+    loop 3 (fun i => dohView (o i)) r =
+      if r < 3 ∧ dohRetryable (o r) = true then loop 3 (fun i => dohView (o i)) (r + 1) else ⟨dohResult (o r), r + 1⟩ := by
+  rw [loop]
+  generalize o r = a
+  cases a with
+  | mk g x c f fd ce re =>
+    by_cases h : r < 3 <;> cases g <;> cases x <;> cases c <;> cases ce <;> cases re <;>
+      simp [dohRetryable, dohResult, dohView, Get.isErr, h]
+
+theorem dohLoop_eq (o : Oracle) (r : Nat) : dohLoop o r r = loop 3 (fun i => dohView (o i)) r := by
+  generalize hn : 3 - r = n
+  induction n generalizing r with
+  | zero =>
+    rw [dohLoop_step, loop_dohView_step]
+    have : ¬ r < 3 := by omega
+    simp [this]
+  | succ n ih =>
+    rw [dohLoop_step, loop_dohView_step]
+    split
+    · exact ih (r + 1) (by omega)
+    · rfl
 /-- at least one attempt is made -/
 theorem loop_n_gt (lim : Nat) (o : Oracle) (r : Nat) : r < (loop lim o r).n := by
   fun_induction loop lim o r <;> simp_all <;> omega
